@@ -5,6 +5,8 @@ from common import (atomic_op, calls_to, callee, callee_names, closure_consumer,
 from props.c08 import slot_writes, slot_value_block, active_stores, WRITERS, VEC, is_diverging
 from props.c09 import classify
 
+from common import iter_pipeline, closure_tree
+
 PROP = "C11"
 LEVEL = "other"
 UNDECIDED = [
@@ -43,6 +45,79 @@ def for_loops(fn):
     return out
 
 
+def _pred_result(facts, cpath):
+    """Single result expression of a loop-free predicate closure (or None)."""
+    from cfg import decision_paths
+    b = facts.body("nucleo", cpath)
+    if b is None:
+        return None
+    try:
+        ps = decision_paths(fn_of(b))
+    except Inconclusive:
+        return None
+    if len(ps) != 1:
+        return None
+    return ps[0][1]
+
+
+def _drop_chain_form(ctx, fn):
+    """`self.buckets.iter_mut()…filter(non-null).for_each(dealloc)`: every bucket is visited because no stage of
+    the chain can end it early, and the only stage that drops elements drops exactly the unallocated buckets."""
+    facts = ctx.facts
+    sinks = [(bi, t) for bi, t in fn.calls(lambda t: callee(t).endswith("Iterator::for_each") or str(t.get("fn")).endswith("Iterator::for_each"))]
+    for bi, t in sinks:
+        clo = fn.expr_of_operand(t["args"][1])
+        if clo[0] != "closure":
+            continue
+        tree = closure_tree(facts, "nucleo", clo[1])
+        if not any(callee(ct) == "boxcar::Bucket::<T>::dealloc" for f in tree for _, ct in f.calls()):
+            continue
+        stages = iter_pipeline(fn, t)
+        src = stages[0]
+        whole = False
+        if src[0] == "source" and src[2][0] == "call":
+            base, names = field_chain(src[2][2][0])
+            whole = names == ["buckets"]
+        if not whole:
+            ctx.violation(DROP + "|iter-range|1", site(fn, bi), "the freeing chain does not start from an iterator over the whole `buckets` array")
+        bad = [st for st in stages[1:] if st[0].startswith("truncating:") or st[0].startswith("unknown:") or st[0] == "zip"]
+        for st in stages[1:]:
+            if st[0].startswith("subset:"):
+                r = _pred_result(facts, st[1]) if st[1] else None
+                nonnull = r is not None and r[0] == "un" and r[1] == "Not" and r[2][0] == "call" and str(r[2][1]).endswith("::is_null")
+                if not nonnull:
+                    bad.append(st)
+        if bad:
+            ctx.violation(DROP + "|loop-exit|1", site(fn, bi),
+                          "Drop for Vec does not hand every allocated bucket to Bucket::dealloc: stage `%s` of the iterator chain can skip or cut off buckets "
+                          "(buckets are allocated out of index order, so later buckets and every item in them would leak)" % bad[0][0])
+        else:
+            ctx.ok(site(fn, bi), "iterator chain over all buckets: only null buckets are filtered out, nothing truncates (%s)" % " → ".join(st[0] for st in stages))
+        # freed with its own length: a bucket_len(<non-constant>) feeds the dealloc; never a constant length
+        blens = []
+        for st in stages:
+            if st[1]:
+                for f in closure_tree(facts, "nucleo", st[1]):
+                    blens += [(f, b2, t2) for b2, t2 in f.calls(lambda t: callee(t) == "boxcar::Location::bucket_len")]
+        for f in tree:
+            blens += [(f, b2, t2) for b2, t2 in f.calls(lambda t: callee(t) == "boxcar::Location::bucket_len")]
+        okl = bool(blens) and all(f.expr_of_operand(t2["args"][0])[0] != "const" for f, b2, t2 in blens)
+        for f in tree:
+            for b2, t2 in f.calls(lambda t: callee(t) == "boxcar::Bucket::<T>::dealloc"):
+                ln = f.expr_of_operand(t2["args"][1])
+                if okl and strip_casts(ln)[0] != "const":
+                    ctx.ok(site(f, b2), "bucket freed with Location::bucket_len(its index)")
+                else:
+                    ctx.violation(DROP + "|dealloc-len|1", site(f, b2), "bucket freed with a length that is not Location::bucket_len(index of this bucket): %s" % show(ln))
+        nonnull_stage = any(st[0].startswith("subset:") for st in stages)
+        if nonnull_stage and not bad:
+            ctx.ok(site(fn, bi), "dealloc only for non-null buckets")
+        elif not nonnull_stage:
+            ctx.violation(DROP + "|dealloc-null|1", site(fn, bi), "Bucket::dealloc reachable with a null bucket pointer")
+        return True
+    return False
+
+
 def rule_drop_visits_all(ctx):
     fn = get_fn(ctx.facts, "nucleo", DROP)
     loops = for_loops(fn)
@@ -52,7 +127,9 @@ def rule_drop_visits_all(ctx):
         if any(bi in body for bi, t in fn.calls(lambda t: callee(t) == "boxcar::Bucket::<T>::dealloc")):
             target = (h, body, nxt)
     if target is None:
-        raise Inconclusive("Drop for Vec: no loop that calls Bucket::dealloc")
+        if _drop_chain_form(ctx, fn):
+            return
+        raise Inconclusive("Drop for Vec: no loop (or iterator chain) that calls Bucket::dealloc")
     h, body, nxt = target
     if nxt is None:
         raise Inconclusive("Drop for Vec: the freeing loop is not driven by an iterator")
@@ -114,7 +191,7 @@ def rule_dealloc_callers(ctx):
     cs = calls_to(facts, "nucleo", lambda t: callee(t) == "boxcar::Bucket::<T>::dealloc")
     ctx.floor("callers of Bucket::dealloc", len(cs), 1)
     for fn, bi, t in cs:
-        if fn.path in (DROP, VEC + "get_or_alloc"):
+        if fn.path in (DROP, VEC + "get_or_alloc") or (fn.b.get("kind") == "Closure" and fn.b.get("root") == DROP):
             ctx.ok(site(fn, bi), "dealloc from %s" % fn.path)
         else:
             ctx.violation("%s|Bucket::dealloc|1" % fn.path, site(fn, bi),
@@ -144,9 +221,64 @@ def rule_dealloc_callers(ctx):
                     ctx.violation("%s|field %s|1" % (a["path"], f["name"]), "%s:%d" % (a["loc"]["file"], a["loc"]["line"]), "ManuallyDrop field in library type")
 
 
+def _is_drop_call(t):
+    return callee(t) == "std::ptr::drop_in_place" or callee(t).endswith("::assume_init_drop")
+
+
+def _dealloc_chain_form(ctx, fn):
+    """`(0..len).map(|i| Bucket::get(entries, i, cols)).filter(active).for_each(drop slot + columns)`."""
+    facts = ctx.facts
+    for bi, t in fn.calls(lambda t: callee(t).endswith("Iterator::for_each") or str(t.get("fn")).endswith("Iterator::for_each")):
+        clo = fn.expr_of_operand(t["args"][1])
+        if clo[0] != "closure":
+            continue
+        tree = closure_tree(facts, "nucleo", clo[1])
+        dcalls = [(f, b2, t2) for f in tree for b2, t2 in f.calls(_is_drop_call)]
+        if not dcalls:
+            continue
+        stages = iter_pipeline(fn, t)
+        src = stages[0]
+        ok_range = False
+        if src[0] == "source" and src[2][0] == "agg" and str(src[2][1]).endswith("Range::Range"):
+            a, b = src[2][2].get("start"), src[2][2].get("end")
+            ok_range = a is not None and a[0] == "const" and a[1] == 0 and b is not None and b[0] == "arg" and b[1] == 2
+        if ok_range and not any(st[0].startswith(("truncating:", "unknown:")) or st[0] == "zip" for st in stages[1:]):
+            ctx.ok(site(fn, bi), "entries 0..len visited (iterator chain, nothing truncates)")
+        else:
+            ctx.violation("boxcar::Bucket::<T>::dealloc|range|1", site(fn, bi), "dealloc does not visit entries 0..len of the bucket")
+        # the only subset stage keeps exactly the active entries
+        gated = False
+        for st in stages[1:]:
+            if st[0].startswith("subset:"):
+                r = _pred_result(facts, st[1]) if st[1] else None
+                if r is not None and any(x[0] == "call" and (str(x[1]).endswith("Atomic::<bool>::get_mut") or str(x[1]).endswith("Atomic::<bool>::load")) for x in walk(r)) \
+                        and any(x[0] == "field" and x[2] == "active" for x in walk(r)) and not (r[0] == "un" and r[1] == "Not"):
+                    gated = True
+                else:
+                    ctx.violation("boxcar::Bucket::<T>::dealloc|filter|1", site(fn, bi), "the chain filters entries by something other than their active flag")
+        kinds = set()
+        for f, b2, t2 in dcalls:
+            e = f.expr_of_operand(t2["args"][0])
+            kind = "slot" if any(x[0] == "field" and x[2] == "slot" for x in walk(e)) else "column"
+            kinds.add(kind)
+            if gated:
+                ctx.ok(site(f, b2), "drop of the %s happens only for entries that passed the active-flag filter" % kind)
+            else:
+                ctx.violation("boxcar::Bucket::<T>::dealloc|drop-%s|1" % kind, site(f, b2),
+                              "drop of the %s is not guarded by the entry's active flag: slots that were never initialised would be dropped" % kind)
+        if kinds != {"slot", "column"}:
+            ctx.violation("boxcar::Bucket::<T>::dealloc|drop-kinds|1", site(fn, 0),
+                          "Bucket::dealloc drops %s only; both the slot value and every matcher column must be dropped (leak otherwise)" % sorted(kinds))
+        _dealloc_layout_pair(ctx, fn)
+        return True
+    return False
+
+
 def rule_drop_gated(ctx):
     fn = get_fn(ctx.facts, "nucleo", "boxcar::Bucket::<T>::dealloc")
-    drops = [(bi, t) for bi, t in fn.calls(lambda t: callee(t) == "std::ptr::drop_in_place")]
+    drops = [(bi, t) for bi, t in fn.calls(lambda t: callee(t) == "std::ptr::drop_in_place" or callee(t).endswith("::assume_init_drop"))]
+    if not drops and _dealloc_chain_form(ctx, fn):
+        return
     ctx.floor("drop_in_place sites in Bucket::dealloc", len(drops), 2)
     kinds = set()
     for i, (bi, t) in enumerate(drops):
@@ -181,6 +313,10 @@ def rule_drop_gated(ctx):
         ctx.ok(site(fn, 0), "entries 0..len visited")
     else:
         ctx.violation("boxcar::Bucket::<T>::dealloc|range|1", site(fn, 0), "dealloc does not visit entries 0..len of the bucket")
+    _dealloc_layout_pair(ctx, fn)
+
+
+def _dealloc_layout_pair(ctx, fn):
     # same layout expression as Bucket::alloc
     al = get_fn(ctx.facts, "nucleo", "boxcar::Bucket::<T>::alloc")
     a_sites = [(bi, t) for bi, t in al.calls(lambda t: callee(t) in ("std::alloc::alloc", "std::alloc::alloc_zeroed"))]
